@@ -60,6 +60,33 @@ def qty(r, exact, kinds=("zero", "tiny", "small", "mid", "big")):
     return F(n) + r.choice([F(13, 100), F(37, 100), F(1, 2), F(71, 100), F(9, 10)])
 
 
+def gen_storm(r, focus, tier="quick"):
+    """Event-count reach: one or two pools, hundreds of short multi-operator chains, every container suspended at every
+    operator boundary and its rest assigned again - thousands of containers, results and finished suspensions per pool
+    in a few hundred ticks (bounded histories, counters and per-pool lists that only long busy runs fill)."""
+    tps = r.choice([1, 2, 4, 8])
+    unit = F(20, tps)
+    pools = r.choice([1, 1, 2])
+    cpus = r.choice([64, 128])
+    capq = r.choice([800, 1600])
+    T = r.randint(250, 500) if tier == "quick" else r.randint(300, 1200)
+    cfg = {"tps": tps, "pools": pools, "cpus": cpus, "ram": fstr(capq * unit), "over": r.random() < 0.3, "multi": True,
+           "exact": True, "ticks": T}
+    npipes = r.randint(450, 700) if tier == "quick" else r.randint(500, 1500)
+    pipes = []
+    for pi in range(npipes):
+        nops = r.randint(3, 5)
+        ops = []
+        for oi in range(nops):
+            b = F(r.choice([0, 0, 1]), tps)
+            rq = F(r.choice([1, 1, 2]))
+            ops.append({"par": [oi - 1] if oi else [], "segs": [[fstr(b), "const", None, fstr(rq * unit)]]})
+        pipes.append({"prio": r.choice(["QUERY", "INTERACTIVE", "BATCH_PIPELINE"]), "at": r.randint(0, T // 3), "ops": ops})
+    knobs = {"p_asg": 0.9, "p_op": 1.0, "p_sus": r.choice([0.7, 1.0]), "retry": True, "cpus": ["1"],
+             "alloc_w": [8, 0, 1, 0], "fault": None, "fault_tick": 0}
+    return {"kind": "ex", "focus": focus, "cfg": cfg, "pipes": pipes, "knobs": knobs, "storm": True}
+
+
 def gen(r, focus, tier="quick"):
     exact = r.random() < 0.5
     if exact:
